@@ -84,7 +84,45 @@ def dask_threads_differential(case, compare, reps=6, workers=16):
     return None, info
 
 
+def dask_threads_pair_differential(case, compare, reps=5, workers=8):
+    """The two lazy results of a pair case computed together by the real threaded scheduler
+    (triggered when a task was seen touching process-global state, e.g. numpy's global RNG)."""
+    from .run_graph import build_with_bases, numpy_reference, pair_case
+    c2 = pair_case(case)
+    want1, why1 = numpy_reference({k: v for k, v in case.items() if k != "pair"})
+    want2, why2 = numpy_reference(c2)
+    info = {"reps": reps, "workers": workers, "pair": True}
+    if why1 or why2:
+        info["skipped"] = why1 or why2
+        return None, info
+    with warnings.catch_warnings():
+        warnings.simplefilter("ignore")
+        with np.errstate(all="ignore"):
+            for k in range(reps):
+                rasters, _ = build_with_bases(case, "dask")
+                with dask.config.set(scheduler="threads", num_workers=workers):
+                    l1 = OPS[case["op"]](rasters, case["params"])
+                    l2 = OPS[case["op"]](rasters, c2["params"])
+                    g1, g2 = dask.compute(l1, l2)
+                for which, c, got, want in (("first", case, materialise(g1), want1), ("second", c2, materialise(g2), want2)):
+                    v = compare(c, got, want)
+                    if v is not None:
+                        v = dict(v)
+                        v["class"] = "real_threads_pair_" + v.get("class", "mismatch")
+                        v["which_of_the_pair"] = which
+                        v["repetition"] = k
+                        v["replay_may_be_probabilistic"] = True
+                        return (v, case), info
+    return None, info
+
+
 def replay_dask_threads(rep, compare, reps=30):
+    if rep.get("pair_mode"):
+        for _ in range(6):
+            found, _info = dask_threads_pair_differential(rep["case"], compare, reps=5, workers=rep.get("workers", 8))
+            if found is not None:
+                return found[0]
+        return None
     from .run_graph import build_with_bases, numpy_reference
     big = rep["case"]
     want, why = numpy_reference(big)
